@@ -157,6 +157,13 @@ func c06(r *Report) propMeta {
 	r.ArgHas("order-time-desc-then-power-desc", mv+"$1", "cmp.Compare", 0, 1, "field:ValidatorPriceInfo.Timestamp", "param:priceB")
 	r.ArgHas("order-price-asc", mw+"$1", "cmp.Compare", 0, 1, "field:WeightedPrice.Price", "param:a")
 
+	r.LoopVisitsAll("every-current-feed-priced", "x/feeds/keeper.Keeper.CalculatePrices", "Keeper.SetPrice", LoopOpts{AllowErrReturn: true})
+	ssp := "x/feeds/keeper.msgServer.SubmitSignalPrices"
+	r.ArgHas("stored-price-at-block-time", ssp, "types.NewValidatorPrice", 1, 1, "call:Context.BlockTime", "!field:MsgSubmitSignalPrices.Timestamp")
+
+	r.Rule("C06.R6", "store-key agreement: every point read/delete addresses a written key family")
+	r.StoreKeyAgreement("store-keys", "feeds", 9, nil)
+
 	return propMeta{
 		Decided: []string{
 			"R1 CalculatePrice has exactly the three status exits with guards unsupported*2>total -> UNKNOWN; total<quorum or available*2<total -> NOT_READY; else AVAILABLE with the median of the same infos; powerQuorum = trunc(TotalBondedTokens * PriceQuorum); power sums add each info's power to the bucket of its status",
@@ -164,6 +171,7 @@ func c06(r *Report) propMeta {
 			"R3 validators enter only inside the IterateBondedValidatorsByPower callback past oracle IsActive; a price enters only past checkHavePrice == (status != UNSPECIFIED && timestamp >= blockTime - interval), nothing else",
 			"R4 section table {1,3,7,15,32} strictly increasing ending at the scaling factor 32; multipliers non-increasing; equal lengths",
 			"R5 no map range / float / clock in median.go; both sorts are stable with (time desc, power desc) and (price asc, weight asc) comparators",
+			"R6 every KV-store Get/Has/Delete of x/feeds uses a key builder of x/feeds/types that some Set of the module also uses (a probe of an iteration prefix or of a sibling family is always-empty state)",
 		},
 		Undecided: []string{"that the weights are the intended ones (section arithmetic values)", "tie behaviour and the >= at the half-weight crossing being the intended choice"},
 		Assume:    []string{"staking IterateBondedValidatorsByPower yields bonded validators only", "sdkmath.Int arithmetic is exact"},
